@@ -1,6 +1,6 @@
 """C08 — consistent renaming of user identifiers commutes with transpilation (spec/PyScope.tla).
 
-TLC computes, on a scope tree with 27 binders and 29 references, every identifier assignment that merges a pair
+TLC computes, on a scope tree with 30 binders and 30 references, every identifier assignment that merges a pair
 of binders without changing what any reference denotes under Python's LEGB rule (the shadowing patterns),
 proves that resolution depends on slot equality only (BindsBySlotOnly), and renders the program under seven
 namings (adversarial pools: prefixes of one another, double underscores, node-classification words, very
@@ -123,7 +123,7 @@ def run(ctx: Ctx) -> int:
 			one.setdefault(c['pool'], c)
 		groups.append(list(one.values()))
 	if quick:
-		groups = groups[::2] + [g for g in groups if not g[0]['merged']]
+		groups = groups[::4] + [g for g in groups if not g[0]['merged']]
 	ctx.log(f'TLC: {info[0] if info else "?"} valid identifier assignments; {len(groups)} shadowing patterns x {len(groups[0]) - 1 if groups else 0} adversarial namings to compare')
 	nproc = 16
 	with ProcessPoolExecutor(max_workers=nproc) as ex:
